@@ -29,8 +29,9 @@ var c16Versions = map[string]string{"v2025": "2025-03-26", "v2024": "2024-11-05"
 	"empty": "", "garbage": "not-a-version/\u2028\n", "long": strings.Repeat("9", 5000)}
 
 type c16SStep struct {
-	Op string `json:"op"` // regprompt regresource init
-	V  string `json:"v,omitempty"`
+	Op    string `json:"op"` // regprompt regresource init
+	V     string `json:"v,omitempty"`
+	Multi bool   `json:"multi,omitempty"` // regresource through RegisterResources (several contents)
 }
 
 type c16SObs struct {
@@ -88,7 +89,10 @@ func c16Server(kind string, steps []c16SStep) (obs []c16SObs, broken string) {
 		return mcp.TextResourceContents{URI: "r://x", Text: "x"}, nil
 	}
 	ctx := context.Background()
-	var regPrompt, regResource func()
+	var regPrompt, regResource, regResources func()
+	resHs := func(ctx context.Context, req *mcp.ReadResourceRequest) ([]mcp.ResourceContents, error) {
+		return []mcp.ResourceContents{mcp.TextResourceContents{URI: "r://x", Text: "x"}}, nil
+	}
 	var doInit func(v string, n int) c16SObs
 	switch kind {
 	case "streamable", "stateless":
@@ -101,6 +105,7 @@ func c16Server(kind string, steps []c16SStep) (obs []c16SObs, broken string) {
 		defer ts.Close()
 		regPrompt = func() { srv.RegisterPrompt(&mcp.Prompt{Name: "p1"}, promptH) }
 		regResource = func() { srv.RegisterResource(&mcp.Resource{URI: "r://x", Name: "x"}, resH) }
+		regResources = func() { srv.RegisterResources(&mcp.Resource{URI: "r://x", Name: "x"}, resHs) }
 		doInit = func(v string, n int) c16SObs {
 			r := peer.PostJSON(ctx, ts.URL+"/mcp", nil, c16InitBody(v, n), n%2 == 1)
 			body := r.Body
@@ -121,6 +126,7 @@ func c16Server(kind string, steps []c16SStep) (obs []c16SObs, broken string) {
 		defer func() { ts.CloseClientConnections(); ts.Close() }()
 		regPrompt = func() { srv.RegisterPrompt(&mcp.Prompt{Name: "p1"}, promptH) }
 		regResource = func() { srv.RegisterResource(&mcp.Resource{URI: "r://x", Name: "x"}, resH) }
+		regResources = func() { srv.RegisterResources(&mcp.Resource{URI: "r://x", Name: "x"}, resHs) }
 		doInit = func(v string, n int) c16SObs {
 			st, err := peer.OpenSSE(ctx, http.MethodGet, ts.URL+"/sse", map[string]string{"Accept": "text/event-stream"}, nil)
 			if err != nil || st.Status != 200 {
@@ -159,6 +165,7 @@ func c16Server(kind string, steps []c16SStep) (obs []c16SObs, broken string) {
 		srv := mcp.NewStdioServer("verif-name", "9.8.7", mcp.WithStdioServerLogger(silentLogger{}))
 		regPrompt = func() { srv.RegisterPrompt(&mcp.Prompt{Name: "p1"}, promptH) }
 		regResource = func() { srv.RegisterResource(&mcp.Resource{URI: "r://x", Name: "x"}, resH) }
+		regResources = func() { srv.RegisterResources(&mcp.Resource{URI: "r://x", Name: "x"}, resHs) }
 		pr, pw := io.Pipe()
 		rec := &recorder{}
 		sctx, cancel := context.WithCancel(ctx)
@@ -188,7 +195,11 @@ func c16Server(kind string, steps []c16SStep) (obs []c16SObs, broken string) {
 			regPrompt()
 			obs = append(obs, c16SObs{})
 		case "regresource":
-			regResource()
+			if st.Multi {
+				regResources()
+			} else {
+				regResource()
+			}
 			obs = append(obs, c16SObs{})
 		case "init":
 			obs = append(obs, doInit(st.V, 1000+n))
